@@ -170,6 +170,144 @@ func limitDigits(plan []sess.Step, max int) []sess.Step {
 	return plan
 }
 
+
+// ---- directed family: every operator/object/argument at every cursor position of shaped buffers ----
+
+var c01Shapes = []string{"", "a", "ab", "foo bar baz", "echo \"hello", "echo hello\" x", "'q w' \"x\"", "(a[b]{c})", "(unclosed [x", "x) y] z}", "a\"b\"c\"d", "<tag>x</tag>",
+	"`cmd` $(x)", "a\nb", "x\n\ny", "世 é x", "\\", "  ", "  lead", "trail  ", "a.b,c;d", "if (x) { y }", "''", "\"\"", "()", "a'b", "x = [1, 2"}
+
+var c01ArgChars = []rune("\"'`()[]{}<>bBwWps ,.")
+
+func c01Arg(r *rand.Rand, buf string) string {
+	rs := []rune(buf)
+	var present []rune // delimiters that occur in the buffer, and their counterparts
+	for _, c := range rs {
+		if i := strings.IndexRune("\"'`()[]{}<>", c); i >= 0 {
+			present = append(present, c)
+			if j := strings.IndexRune("()[]{}<>", c); j >= 0 {
+				present = append(present, rune("()[]{}<>"[j^1]))
+			}
+		}
+	}
+	switch k := r.Intn(10); {
+	case k < 5 && len(present) > 0:
+		return string(pick(r, present))
+	case k < 7 || len(rs) == 0:
+		return string(pick(r, c01ArgChars))
+	case k < 9:
+		return string(pick(r, rs))
+	default:
+		return string(rune(32 + r.Intn(95)))
+	}
+}
+
+var c01ViOps = []string{"c", "d", "y", "v", "g~", "gu", "gU", "", "", "cs", "ds", "ys", "vS"}
+var c01ViMotions = []string{"h", "l", "w", "b", "e", "W", "B", "E", "0", "$", "^", "%", "ge", "gE", "j", "k", "G", "gg", ";", ",", "|", "-", "+"}
+
+// c01ViObject returns the keys of one motion or text object, one string per key read.
+func c01ViObject(r *rand.Rand, buf string) []string {
+	switch r.Intn(4) {
+	case 0:
+		return []string{pick(r, []string{"f", "F", "t", "T"}), c01Arg(r, buf)}
+	case 1:
+		return []string{pick(r, []string{"i", "a"}), c01Arg(r, buf)}
+	case 2:
+		seqs := defaultSeqs()["vi-opp"]
+		if len(seqs) > 0 {
+			return []string{keyBytes(pick(r, seqs))}
+		}
+		fallthrough
+	default:
+		return []string{pick(r, c01ViMotions)}
+	}
+}
+
+func c01GenDirected(r *rand.Rand, c *c01Case, idx int) {
+	buf := c01Shapes[(idx/2)%len(c01Shapes)]
+	nb := len([]rune(buf))
+	p := r.Intn(nb + 1)
+	var keys []string // one entry per group of bytes that belongs together
+	if c.Mode == "vi" {
+		if buf != "" {
+			c.Plan = append(c.Plan, sess.Step{W: buf, Tag: "type"})
+		}
+		c.Plan = append(c.Plan, sess.Step{W: "\x1b", Tag: "esc"}, sess.Step{W: "0", Tag: "bol"})
+		for i := 0; i < p; i++ {
+			c.Plan = append(c.Plan, sess.Step{W: pick(r, []string{"l", "l", "l", " "}), Tag: "move"})
+		}
+		for n := 1 + r.Intn(2); n > 0; n-- {
+			if r.Intn(4) == 0 {
+				keys = append(keys, strconv.Itoa(1+r.Intn(12)))
+			}
+			switch op := pick(r, c01ViOps); op {
+			case "cs":
+				keys = append(keys, "cs", c01Arg(r, buf), c01Arg(r, buf))
+			case "ds":
+				keys = append(keys, "ds", c01Arg(r, buf))
+			case "ys":
+				keys = append(keys, "ys")
+				keys = append(keys, c01ViObject(r, buf)...)
+				keys = append(keys, c01Arg(r, buf))
+			case "vS":
+				keys = append(keys, "v")
+				keys = append(keys, c01ViObject(r, buf)...)
+				keys = append(keys, "S", c01Arg(r, buf))
+			case "":
+				seq := keyBytes(pick(r, defaultSeqs()["vi-command"]))
+				keys = append(keys, seq)
+				for _, a := range argCmdsVi {
+					if seq == a {
+						keys = append(keys, c01Arg(r, buf))
+					}
+				}
+			default:
+				keys = append(keys, op)
+				if r.Intn(5) == 0 {
+					keys = append(keys, strconv.Itoa(1+r.Intn(5)))
+				}
+				keys = append(keys, c01ViObject(r, buf)...)
+				if op == "v" {
+					keys = append(keys, pick(r, []string{"d", "c", "y", "x", "~", "u", "U", "o", "\x1b", "p", "S\"", "J"}))
+				}
+			}
+		}
+	} else {
+		if buf != "" {
+			c.Plan = append(c.Plan, sess.Step{W: buf, Tag: "type"})
+		}
+		for i := 0; i < nb-p; i++ {
+			c.Plan = append(c.Plan, sess.Step{W: "\x02", Tag: "move"})
+		}
+		for n := 1 + r.Intn(2); n > 0; n-- {
+			if r.Intn(4) == 0 {
+				keys = append(keys, pick(r, []string{"\x1b2", "\x1b-", "\x1b12", "\x1b-3", "\x1b0"}))
+			}
+			km := pick(r, []string{"emacs", "emacs", "emacs-meta", "emacs-ctlx"})
+			seq := keyBytes(pick(r, defaultSeqs()[km]))
+			switch km {
+			case "emacs-meta":
+				seq = "\x1b" + seq
+			case "emacs-ctlx":
+				seq = "\x18" + seq
+			}
+			keys = append(keys, seq)
+			for _, a := range argCmdsEmacs {
+				if seq == a {
+					keys = append(keys, c01Arg(r, buf))
+				}
+			}
+		}
+	}
+	if r.Intn(2) == 0 {
+		c.Plan = append(c.Plan, sess.Step{W: strings.Join(keys, ""), Tag: "directed"})
+	} else {
+		for _, k := range keys {
+			c.Plan = append(c.Plan, sess.Step{W: k, Tag: "directed"})
+		}
+	}
+	c.Plan = append(c.Plan, genScript(r, c.Mode == "vi", r.Intn(4))...)
+}
+
 func c01Gen(r *rand.Rand, tier string, idx int) any {
 	c := c01Case{}
 	c.Mode = pick(r, []string{"emacs", "vi"})
@@ -187,7 +325,12 @@ func c01Gen(r *rand.Rand, tier string, idx int) any {
 		n = r.Intn(4)
 	}
 	// numeric arguments stay within the stated bound: at most 4 digit characters per script
-	c.Plan = limitDigits(genScript(r, c.Mode == "vi", n), 4)
+	if idx%2 == 1 {
+		c01GenDirected(r, &c, idx)
+		c.Plan = limitDigits(c.Plan, 4)
+	} else {
+		c.Plan = limitDigits(genScript(r, c.Mode == "vi", n), 4)
+	}
 	c.ExitTag = pick(r, []string{"ret", "ret", "ctrl-c", "ctrl-d", "eof", "eio", "eof", "eio"})
 	switch c.ExitTag {
 	case "ret":
